@@ -110,10 +110,13 @@ def envStart (env : Option UEnv) : Bool :=
   | none => true
   | some v => v.start
 
-def uenvNext (c : PkCfg) (s : PkState) (env : Option UEnv) (i : In HBeat) : Option UEnv :=
+section env
+variable {β σ : Type}
+
+def uenvNext (e : Elem HBeat β σ) (s : σ) (env : Option UEnv) (i : In HBeat) : Option UEnv :=
   some { lines := i.tok
-         pend := i.valid && !((packetizer c).out s i).ready
-         start := if i.valid && ((packetizer c).out s i).ready then i.tok.last
+         pend := i.valid && !(e.out s i).ready
+         start := if i.valid && (e.out s i).ready then i.tok.last
                   else envStart env }
 
 /-- The three assumptions, cycle by cycle: (1) stream contract: a beat offered and not accepted is offered again
@@ -127,13 +130,13 @@ def UOkStep (env : Option UEnv) (i : In HBeat) : Prop :=
     (i.valid = false → v.start = false → i.tok = v.lines) ∧
     (i.valid = true → v.pend = false → v.start = true → i.tok.last = false)
 
-def UOk (c : PkCfg) : PkState → Option UEnv → List (In HBeat) → Prop
+def UOk (e : Elem HBeat β σ) : σ → Option UEnv → List (In HBeat) → Prop
   | _, _, [] => True
-  | s, env, i :: is => UOkStep env i ∧ UOk c ((packetizer c).step s i) (uenvNext c s env i) is
+  | s, env, i :: is => UOkStep env i ∧ UOk e (e.step s i) (uenvNext e s env i) is
 
-def uenvRun (c : PkCfg) : PkState → Option UEnv → List (In HBeat) → Option UEnv
+def uenvRun (e : Elem HBeat β σ) : σ → Option UEnv → List (In HBeat) → Option UEnv
   | _, env, [] => env
-  | s, env, i :: is => uenvRun c ((packetizer c).step s i) (uenvNext c s env i) is
+  | s, env, i :: is => uenvRun e (e.step s i) (uenvNext e s env i) is
 
 /-- Executable form of `UOk` (for concrete examples). -/
 def uokStepB (env : Option UEnv) (i : In HBeat) : Bool :=
@@ -144,9 +147,9 @@ def uokStepB (env : Option UEnv) (i : In HBeat) : Bool :=
     (i.valid || v.start || decide (i.tok = v.lines)) &&
     (!i.valid || v.pend || !v.start || !i.tok.last)
 
-def uokB (c : PkCfg) : PkState → Option UEnv → List (In HBeat) → Bool
+def uokB (e : Elem HBeat β σ) : σ → Option UEnv → List (In HBeat) → Bool
   | _, _, [] => true
-  | s, env, i :: is => uokStepB env i && uokB c ((packetizer c).step s i) (uenvNext c s env i) is
+  | s, env, i :: is => uokStepB env i && uokB e (e.step s i) (uenvNext e s env i) is
 
 theorem uokStep_of_B (env : Option UEnv) (i : In HBeat) (h : uokStepB env i = true) : UOkStep env i := by
   unfold uokStepB at h
@@ -175,8 +178,8 @@ theorem uokStep_of_B (env : Option UEnv) (i : In HBeat) (h : uokStepB env i = tr
       · rw [hs] at h3; cases h3
       · exact h3
 
-theorem uok_of_B (c : PkCfg) (ins : List (In HBeat)) :
-    ∀ s env, uokB c s env ins = true → UOk c s env ins := by
+theorem uok_of_B (e : Elem HBeat β σ) (ins : List (In HBeat)) :
+    ∀ s env, uokB e s env ins = true → UOk e s env ins := by
   induction ins with
   | nil => intro s env _; trivial
   | cons i is ih =>
@@ -184,14 +187,12 @@ theorem uok_of_B (c : PkCfg) (ins : List (In HBeat)) :
     simp only [uokB, Bool.and_eq_true] at h
     exact ⟨uokStep_of_B env i h.1, ih _ _ h.2⟩
 
-theorem rel_run_uok (c : PkCfg)
-    (R : PkState → Option UEnv → List (Tok HBeat) → List (Tok Nat) → Prop)
+theorem rel_run_uok (e : Elem HBeat β σ)
+    (R : σ → Option UEnv → List (Tok HBeat) → List (Tok β) → Prop)
     (hstep : ∀ s env a d i, R s env a d → UOkStep env i →
-      R ((packetizer c).step s i) (uenvNext c s env i) (a ++ (packetizer c).accNow s i)
-        (d ++ (packetizer c).delNow s i)) :
-    ∀ (ins : List (In HBeat)) s env a d, R s env a d → UOk c s env ins →
-      R ((packetizer c).runFrom s ins) (uenvRun c s env ins) (a ++ (packetizer c).accepted s ins)
-        (d ++ (packetizer c).delivered s ins) := by
+      R (e.step s i) (uenvNext e s env i) (a ++ e.accNow s i) (d ++ e.delNow s i)) :
+    ∀ (ins : List (In HBeat)) s env a d, R s env a d → UOk e s env ins →
+      R (e.runFrom s ins) (uenvRun e s env ins) (a ++ e.accepted s ins) (d ++ e.delivered s ins) := by
   intro ins
   induction ins with
   | nil => intro s env a d h _; simpa [accepted, delivered, uenvRun] using h
@@ -200,5 +201,7 @@ theorem rel_run_uok (c : PkCfg)
     obtain ⟨hc1, hc2⟩ := hc
     have := ih _ _ _ _ (hstep s env a d i h hc1) hc2
     simpa [accepted, delivered, uenvRun, List.append_assoc] using this
+
+end env
 
 end Litex.Packet
